@@ -25,7 +25,7 @@ from .. import effects
 
 DR = 'dr.DirectoryRecord'
 NAME_ARG = {'new_file': 2, 'new_dir': 1, 'new_symlink': 1}
-NEED = {'new_file': {'file', 'joliet', 'const'}, 'new_dir': {'dir', 'joliet', 'const'}, 'new_symlink': {'file', 'const'}}
+NEED = {'new_file': {'file', 'joliet', 'const'}, 'new_dir': {'dir', 'joliet', 'const', 'relname'}, 'new_symlink': {'file', 'const'}}
 GATES = {'_check_iso9660_filename': 'file', '_check_iso9660_directory': 'dir'}
 JOLIET_GATE = '_joliet_name_and_parent_from_path'
 
@@ -76,6 +76,13 @@ def _gate_states(ctx, fi):
                         src = d[v.id]
                     elif isinstance(v, ast.BinOp) and isinstance(v.op, ast.Add) and isinstance(v.left, ast.Name) and v.left.id in d:
                         src = d[v.left.id]      # gated name + generated suffix
+                    elif isinstance(v, ast.BinOp) and isinstance(v.op, ast.Add) and isinstance(v.left, ast.Subscript) and \
+                            isinstance(v.left.slice, ast.Slice) and isinstance(v.left.value, ast.Name) and v.left.value.id in d:
+                        src = d[v.left.value.id]      # truncated gated name + generated suffix
+                    elif isinstance(v, ast.Subscript) and isinstance(v.slice, ast.Slice) and isinstance(v.value, ast.Name) and v.value.id in d:
+                        src = d[v.value.id]           # a prefix of a gated name
+                    elif isinstance(v, ast.Attribute) and v.attr == '_rr_moved_name' and norm(v.value) == 'self':
+                        src = frozenset(['relname'])  # the relocation directory name: checked where it is stored (below)
                     else:
                         try:
                             cv = fold(v, ctx.m, mi, fi.cls)
@@ -175,7 +182,7 @@ def iso_name(ctx):
             g, IN = _gate_states(ctx, fi)
             node = g.node_of(w.stmt)
             st = dict(IN[node.id] or ()) if node is not None else {}
-            ok = st.get(w.value.id) is not None and st[w.value.id] <= {'dir', 'const'}
+            ok = st.get(w.value.id) is not None and st[w.value.id] <= {'dir', 'const', 'relname'}
         obs.append(Ob('SA-GATE.iso_name', '%s|_rr_moved_name = %s' % (fi.qual, norm(w.value)), ok, ctx.loc(fi, w.node),
                       '' if ok else 'relocation directory name stored without _check_iso9660_directory'))
     if nsites < 6:
@@ -366,9 +373,29 @@ def dupguard(ctx):
                 txt = ' && '.join(_test_text(t) for t in tests)
                 if cont in txt and namefield in txt:
                     guards.append((n, tests))
+        # the refusal may live in a query method of the same class that the insertion calls first with the new
+        # entry (`self.check_file_ident_desc(new_fi_desc)`): callers use that method to ask before they change anything
+        helper_calls = []
+        for c in ctx.calls(fi):
+            if isinstance(c.node.func, ast.Attribute) and norm(c.node.func.value) == 'self' and c.node.args and \
+                    [norm(a) for a in c.node.args] == [p for p in fi.params if p != 'self'][:len(c.node.args)]:
+                for cal in c.callees:
+                    if cal.cls is fi.cls and cal is not fi:
+                        hg = ctx.cfg(cal)
+                        hdom = hg.dominators()
+                        for n in hg.nodes:
+                            if n.kind == 'stmt' and raises_class(n.ast) == 'PyCdlibInvalidInput':
+                                tests = [hg.nodes[d] for d in hdom[n.id] if hg.nodes[d].kind in ('test', 'iter')]
+                                txt = ' && '.join(_test_text(t) for t in tests)
+                                if cont in txt and namefield in txt:
+                                    helper_calls.append(c)
         for w in ins:
             wn = g.node_of(w.stmt)
             ok = False
+            for c in helper_calls:
+                cn = g.node_of(ctx.enclosing_stmt(fi, c.node))
+                if cn is not None and cn.id in dom[wn.id]:
+                    ok = True
             for gn, tests in guards:
                 # the deciding test (the innermost one mentioning the name) dominates the insertion
                 for t in tests:
